@@ -174,6 +174,17 @@ public:
         m_fac_H(0, 0) = m_op.inner_product(v, w);
         m_fac_f.noalias() = w - v * m_fac_H(0, 0);
 
+        // When v is close to an eigenvector, f is the difference of two nearly equal
+        // vectors and keeps a component along v that is not small relative to ||f||.
+        // When ||f|| is below 1% of |H[1,1]| (more than two digits are lost), re-orthogonalize f
+        // against v once, as factorize_from() does for the later steps
+        if (m_op.norm(m_fac_f) <= RealScalar(0.01) * abs(m_fac_H(0, 0)))
+        {
+            const Scalar vf = m_op.inner_product(v, m_fac_f);
+            m_fac_f.noalias() -= v * vf;
+            m_fac_H(0, 0) += vf;
+        }
+
         // In some cases, H[1,1] is already an eigenvalue of A,
         // so f would be zero in exact arithmetics. But due to rounding errors,
         // it may contain tiny fluctuations. When this happens, we force f to be zero,
